@@ -281,6 +281,7 @@ def h_typed_join(k0: int, k1: int, r0: int, r1: int, p0: int, p1: int, kind: int
     else:
         out = L.full_join(R, 'k', 'k', expect='many_to_many')
     for c in out.cols():
+        if len(c) == 0: continue      # an empty column carries no dtype yet (serif-wide convention)
         if c.schema() != infer_dtype(list(c)): return H.fail('join column %r = %r typed %r, rule gives %r' % (c.name, list(c), c.schema(), infer_dtype(list(c))))
     return H.ok()
 
